@@ -2346,6 +2346,18 @@ class AssignIndex(Elemwise):
         return self.value.divisions
 
 
+def _nested_selection(outer, inner):
+    """The ``n`` that makes ``head(n)`` equal to ``head(inner).head(outer)``
+
+    (the same for tail). A negative ``n`` drops rows from the other end; a mix of
+    both needs the length of the partition and can't be merged (returns None).
+    """
+    if outer >= 0 and inner >= 0:
+        return min(outer, inner)
+    if outer < 0 and inner < 0:
+        return outer + inner
+
+
 class Head(Expr):
     """Take the first `n` rows of the first partition"""
 
@@ -2383,11 +2395,9 @@ class Head(Expr):
             ]
             return type(self.frame)(*operands)
         if isinstance(self.frame, Head):
-            return Head(
-                self.frame.frame,
-                min(self.n, self.frame.n),
-                self.frame.operand("npartitions"),
-            )
+            n = _nested_selection(self.n, self.frame.n)
+            if n is not None:
+                return Head(self.frame.frame, n, self.frame.operand("npartitions"))
 
     def _simplify_up(self, parent, dependents):
         from dask_expr import Repartition
@@ -2498,7 +2508,9 @@ class Tail(Expr):
             ]
             return type(self.frame)(*operands)
         if isinstance(self.frame, Tail):
-            return Tail(self.frame.frame, min(self.n, self.frame.n))
+            n = _nested_selection(self.n, self.frame.n)
+            if n is not None:
+                return Tail(self.frame.frame, n)
 
     def _simplify_up(self, parent, dependents):
         from dask_expr import Repartition
